@@ -121,6 +121,7 @@ func ethVerify(bsc bool, kind int) {
 	provenSlot := slot
 	if fault == fOtherSlot {
 		provenSlot = vp.Bytes("proof.slot", 32, 32)
+		vp.Assume(!vp.BytesEq(provenSlot, slot)) // another slot: nobody can choose a slot equal to a Keccak image
 	}
 	provenValue := stored
 	if fault == fOtherValue {
